@@ -141,6 +141,20 @@ def _arg(env, v, world=None, node_id=None, label="", self_obj=None):
             return aa.Square(x=sh[1], y=sh[2], side=sh[3]) if hasattr(aa, "Square") and sh[0] == "Square" else aa.Circle(x=sh[1], y=sh[2], radius=sh[3])
         if "$ints" in v:
             return np.array(v["$ints"], dtype=int)
+        if "$array_on" in v:
+            # deterministic values on the mask the expression evaluates to (e.g. a blurring mask only known at run time)
+            import autoarray as aa
+
+            m = _arg(env, v["$array_on"][0], world, node_id, label, self_obj)
+            n = int(np.sum(~np.asarray(m)))
+            vals = np.sin(np.arange(n) * 0.7 + float(v["$array_on"][1])) + 1.5
+            return aa.Array2D(values=vals, mask=m)
+        if "$call" in v:
+            o = _arg(env, v["$call"][0], world, node_id, label, self_obj)
+            fn = o
+            for part in v["$call"][1].split("."):
+                fn = getattr(fn, part)
+            return fn(**{k: _arg(env, x, world, node_id, label, self_obj) for k, x in v["$call"][2].items()})
         if "$abs" in v:
             return abs(_arg(env, v["$abs"], world, node_id, label, self_obj))
         if "$const_like" in v:
@@ -336,6 +350,14 @@ def curated_calls(obj, rng, nodes_by_type):
         a = pick("Array2D")
         if a:
             out.append({"t": "call", "name": "convolve_image_no_blurring", "kw": {"image": {"$node": a}}})
+        try:
+            kshape = [int(k) for k in obj.kernel.shape_native]
+        except Exception:  # noqa: BLE001
+            kshape = None
+        if kshape:
+            out.append({"t": "call", "name": "convolve_image", "kw": {
+                "image": {"$array_on": [{"$selfprop": "mask"}, rng.randrange(0, 9)]},
+                "blurring_image": {"$array_on": [{"$call": [{"$selfprop": "mask"}, "derive_mask.blurring_from", {"kernel_shape_native": _T(*kshape)}]}, rng.randrange(0, 9)]}}})
         npix = None
         try:
             npix = int(obj.mask.pixels_in_mask)
@@ -346,6 +368,18 @@ def curated_calls(obj, rng, nodes_by_type):
             out.append({"t": "call", "name": "convolve_mapping_matrix", "kw": {"mapping_matrix": {"$arr": [prng.fhex(rng.uniform(0, 1)) for _ in range(npix * cols)], "shape": [npix, cols]}}})
     if tn in ("Mesh2DRectangular", "Mesh2DDelaunay"):
         out.append({"t": "call", "name": "interpolation_grid_from", "kw": {"shape_native": _T(rng.randrange(2, 6), rng.randrange(2, 6))}})
+    if tn in ("Array2D", "Kernel2D"):
+        # the non-seeded preprocessing helpers: pure functions of their arguments
+        out.append({"t": "fn", "name": "preprocess.noise_map_via_weight_map_from", "kw": {"weight_map": {"$abs": {"$self": True}}}})
+        out.append({"t": "fn", "name": "preprocess.noise_map_via_inverse_noise_map_from", "kw": {"inverse_noise_map": {"$abs": {"$self": True}}}})
+        out.append({"t": "fn", "name": "preprocess.array_eps_to_counts", "kw": {"array_eps": {"$self": True}, "exposure_time_map": {"$const_like": [{"$self": True}, 300.0]}}})
+        out.append({"t": "fn", "name": "preprocess.edges_from", "kw": {"image": {"$self": True}, "no_edges": rng.randrange(1, 3)}})
+        out.append({"t": "fn", "name": "preprocess.background_noise_map_via_edges_from", "kw": {"image": {"$self": True}, "no_edges": 1}})
+        out.append({"t": "fn", "name": "preprocess.array_with_new_shape", "kw": {"array": {"$self": True}, "new_shape": _T(rng.randrange(1, 9), rng.randrange(1, 9))}})
+        out.append({"t": "fn", "name": "preprocess.noise_map_with_signal_to_noise_limit_from", "kw": {"data": {"$self": True}, "noise_map": {"$const_like": [{"$self": True}, 0.5]}, "signal_to_noise_limit": rng.choice([0.5, 2.0])}})
+    if tn == "Kernel2D":
+        out.append({"t": "fn", "name": "preprocess.psf_with_odd_dimensions_from", "kw": {"psf": {"$self": True}}})
+        out.append({"t": "call", "name": "rescaled_with_odd_dimensions_from", "kw": {"rescale_factor": rng.choice([0.5, 2.0]), "normalize": rng.random() < 0.5}})
     if tn in ("Array2D",):
         # seeded noise helpers (I5): the result must not depend on the prior state of the global generator
         seed = rng.randrange(0, 1000)
